@@ -247,8 +247,13 @@ class CommHandler:
         channels: list[DeviceChannel] = []
         for i in range(frame.chmax):
             chan = None
+            retry = 5
             while chan is None:
+                if retry < 0:
+                    # no valid response - let the caller try again
+                    return None
                 chan = self._nxslib_chinfo(i)
+                retry -= 1
 
             logger.info("chan %d %s", i, str(chan))
             channels.append(chan)
